@@ -34,7 +34,7 @@ def budget(tier):
 def gen_case(rng, tier, k):
     nmax = 5 if tier == "quick" else 6
     bnet = common.g_mixed(rng, nmax=nmax, p_core=0.3)
-    st = rng.choice(["bfs", "dfs", "build", "bfs", "scc", "block"])
+    st = rng.choice(["bfs", "dfs", "build", "bfs", "scc", "block", "min", "aseeds"])
     if st in ("scc", "block") and rng.random() < 0.6:
         bnet = common.g_modulated(rng, extra=False) if tier == "quick" else common.g_modulated(rng)
     flip = rng.randrange(64)
@@ -51,6 +51,10 @@ def expand(sd, strategy):
         sd.expand_scc()
     elif strategy == "block":
         sd.expand_block()
+    elif strategy == "min":
+        sd.expand_minimal_spaces()
+    elif strategy == "aseeds":
+        sd.expand_attractor_seeds()
     else:
         sd.expand_bfs()
     return sd
@@ -119,7 +123,7 @@ def run_case(case):
     orc.ask("states", "STATES")
     orc.run()
     model = abstract(orc.get("bfs").split(" ", 1)[1])
-    if case["strategy"] not in ("scc", "block") and abstract(common.dump_sd(base, ni)) != model:
+    if case["strategy"] not in ("scc", "block", "min", "aseeds") and abstract(common.dump_sd(base, ni)) != model:
         fails.append({"kind": "base-differs-from-model", "sig": {}, "detail": "fully expanded base presentation differs from the Lean full diagram"})
     for s in ref[3]:
         st = "".join(str(dict(s)[v]) for v in names)
@@ -131,13 +135,18 @@ def run_case(case):
         expand(sd, case["strategy"])
         got = canon(sd, back, flipvar)
         for k, what in enumerate(("nodes", "edges and motifs", "minimal trap spaces")):
-            if k < 2 and case["strategy"] in ("scc", "block"):
+            if k < 2 and case["strategy"] in ("scc", "block", "min", "aseeds"):
                 continue        # these strategies build a presentation-dependent sub-diagram; results must agree
             if got[k] != ref[k]:
                 a, b = got[k], ref[k]
                 fails.append({"kind": "presentation-changes-result", "sig": {"presentation": tag, "what": what}, "detail":
                               f"{tag}: {what} differ: only in presentation {sorted(set(a) - set(b))[:3]}, only in base {sorted(set(b) - set(a))[:3]}"})
                 return
+        if case["strategy"] == "min":
+            # minimal-space expansion expands a presentation-dependent set of inner nodes: only the minimal
+            # trap spaces are comparable, not the attractors found in whatever happens to be expanded
+            tags.append("presentation:" + tag)
+            return
         atts = []
         for s in got[3]:
             st = "".join(str(dict(s)[v]) for v in names)
@@ -151,6 +160,14 @@ def run_case(case):
 
     # 1. rename (changes alphabetical order)
     pool = [f"n{rng.randrange(100):02d}_{i}" for i in range(len(names))]
+    if rng.random() < 0.4:
+        # names that are prefixes of each other (g, g_act, g_act_1, ...)
+        pool = ["g"]
+        while len(pool) < len(names):
+            cand = rng.choice(pool) + "_" + rng.choice(["act", "1", "x", "p", "in"])
+            if cand not in pool:
+                pool.append(cand)
+        rng.shuffle(pool)
     ren = dict(zip(names, pool))
     txt = case["bnet"]
     def rename_text(text, mapping):
@@ -162,10 +179,10 @@ def run_case(case):
     reordered = SuccessionDiagram(reorder_network(BooleanNetwork.from_bnet(txt), order))
     compare("reorder", reordered, ident)
     # the library's own comparison must see the two presentations as the same diagram
-    if case["strategy"] not in ("scc", "block") and not (base.is_isomorphic(reordered) and reordered.is_subgraph(base) and base.is_subgraph(reordered)):
+    if case["strategy"] not in ("scc", "block", "min", "aseeds") and not (base.is_isomorphic(reordered) and reordered.is_subgraph(base) and base.is_subgraph(reordered)):
         fails.append({"kind": "presentation-changes-result", "sig": {"presentation": "reorder", "what": "is_isomorphic"}, "detail":
                       f"is_isomorphic/is_subgraph between the base diagram and the same network declared as {order} is False"})
-    if len(names) >= 2 and case["strategy"] not in ("scc", "block"):
+    if len(names) >= 2 and case["strategy"] not in ("scc", "block", "min", "aseeds"):
         partial = SuccessionDiagram(reorder_network(BooleanNetwork.from_bnet(txt), order))
         partial.expand_bfs(bfs_level_limit=0)
         want = len(base) == len(partial) and base.dag.number_of_edges() == partial.dag.number_of_edges()
